@@ -69,7 +69,7 @@ PROPS = {
         explanation=('(S08b) a narrow (<= 16 bit) state counter incremented with panicking arithmetic must have a comparison-guarded reset. Decides the sentence "nothing changes when an internal position counter reaches the capacity of PeriodType": every '
                      'integer field of every Method / IndicatorInstance / Window is classified from the def-use trees of its writes in the '
                      'step function (increment by a positive constant via +, +=, saturating/wrapping/checked add; reset; gated increment; '
-                     'other). A field that is only ever incremented and is narrower than 64 bits is a violation.'),
+                     'other). A field that is only ever incremented and is narrower than 64 bits is a violation; so is a position that a step truncates to a narrower integer (`as u8` of a wider counter) and a counter advanced with wrapping arithmetic whose wrapped value is then compared or used as a length.'),
         not_decided=['growth of rounding error in running sums and equality with the from-scratch definition at late positions '
                      '(floating point): not decided; no numerical allowance is asserted by this check'],
         assumptions=TRUST,
@@ -127,7 +127,8 @@ PROPS = {
                      'Serialize and Deserialize impls; derived impls carry no skip/default/with/flatten/from/into attribute (attributes '
                      'read from the expanded AST), so the serialized form is field-complete; (S02) the two hand-written Serialize impls '
                      'write exactly the field names their Deserialize helper structs read, each from the same-named field; (S10) state '
-                     'is plain data, so behaviour is a function of the restored fields.'),
+                     'is plain data, so behaviour is a function of the restored fields. (S03) the constructor siblings new / from_parts / Deserialize recompute the derived fields of Window and SMM by the same expressions, '
+                     'and SMM\'s restore path re-sorts its slice with the same numeric comparator new() uses. (A01d) no panic is reachable from the hand-written Deserialize impls for any decoded content.'),
         not_decided=['that the chosen format round-trips every f64/integer bit-exactly (a property of the format crate)',
                      'S03 compares the recomputed fields as expressions of the window length; the sortedness of SMM.slice is checked only as "a sort call precedes Ok"',
                      'behavioural equality of restored instances is inferred from field-completeness, not observed'],
@@ -140,7 +141,8 @@ PROPS = {
                lambda ctx: r_step.s07_step_once(ctx, only_types=('Cross', 'ReversalSignal'), rule_id='S07c')],
         feature_sets=_sets(['default'], ['default', 'ci']),
         explanation=('(S04) CrossUnder and LowerReversalSignal are, function by function, the HIR mirror image of CrossAbove and UpperReversalSignal under the swap >=/<=, >/< on float operands, max/min and the declared names ("exactly in the mirrored case"). Decides the clause "streams much longer than PeriodType::MAX" for the detectors: no position field of the crossing / '
-                     'reversal detectors (nor of any other method) is a capacity-limited monotone counter (S08).'),
+                     'reversal detectors (nor of any other method) is a capacity-limited monotone counter (S08), a position truncated to a narrower integer, or a counter that wraps silently. '
+                     '(S07c) every path of the detectors\' next() that reaches its normal return steps each owned sub-detector exactly once, so Cross = CrossAbove - CrossUnder sees every sample on both sides.'),
         not_decided=['that the max-side definitions themselves (strict/non-strict pair, pivot window, tie rule) are the documented ones',
                      'a consistent change of both mirror sides is not seen by S04'],
         assumptions=TRUST,
@@ -155,13 +157,14 @@ PROPS = {
                      'must return equality of the payloads, because the derived comparison is Equal exactly then. (A05) abstract interpretation of every '
                      'public Action function and conversion with unconstrained inputs: no panic/overflow is reachable (totality for every i8, f32, f64, '
                      'NaN and infinities included); with the input pinned to a sign class the result variant set is the one the ratio law demands: '
-                     'From<f64/f32/i8> positive -> Buy, negative -> Sell, NaN/0 -> None; -Buy = Sell; a - b in {Buy} for Buy - Sell, {Sell} for Sell - Buy, ...'),
+                     'From<f64/f32/i8> positive -> Buy, negative -> Sell, NaN/0 -> None; -Buy = Sell; a - b in {Buy} for Buy - Sell, {Sell} for Sell - Buy, ...; and back: the crate\'s own From<Action> for '
+                     'Option<i8>/i8/f64 impls are interpreted per variant: Buy -> Some(+1)/non-negative, Sell -> Some(-1)/non-positive, None -> None/0.'),
         not_decided=['magnitudes: saturation value, monotonicity, from(ratio(a)) == a and the exact ratio of a - b are value-level facts (finite domain, better '
                      'enumerated dynamically): not decided; A05 decides totality and signs only',
                      ],
         assumptions=TRUST + ['derive(PartialOrd, Ord) compares discriminants first, then payloads (documented behaviour)'],
-        technique='static analysis: per-path variant-pair classification of eq() on MIR against the derived ordering',
-        level_text='Decides the clause "equality is an equivalence relation with which the ordering is consistent" structurally.',
+        technique='static analysis: per-path variant-pair classification of eq() on MIR against the derived ordering + interval/sign abstract interpretation of the Action functions and conversions (both directions)',
+        level_text='Decides equality-vs-ordering consistency structurally and totality + sign laws of the algebra and conversions by abstract interpretation; magnitudes are not decided.',
     ),
     'C18': dict(
         rules=[r_tables.s18_source_tables, r_tables.s18b_clv_zero_range, r_tables.s06_ma_dispatch, r_conv.s19b_same_name_wiring,
@@ -173,7 +176,8 @@ PROPS = {
                      'MIR paths; G(v) parses back to v for every variant, every literal is a fixed point of from_str\'s normalisation, the '
                      'default arm is Err, serde names equal G, TryFrom forwards to from_str, and OHLCV::source(kind) calls exactly the '
                      'accessor named G(kind) and returns it unchanged. (S06) MA: from_str maps lowercase(kind) to the kind with the parsed '
-                     'period and rejects other names.'),
+                     'period and rejects other names. (S18b) clv\'s zero-range guard returns the documented constant. (S19b) every OHLCV accessor of a derived candle type (HeikinAshi, Renko bricks, ...) '
+                     'that shares a name with a field reads that field (or the documented max/min of open and close).'),
         not_decided=['numeric identities (tp, hl2, ohlc4, clv, true range), validate\'s exact acceptance set, associativity of +: '
                      'statements about float values for all candles, not decided',
                      'str::parse of the numeric period is trusted to be total (std)'],
@@ -280,7 +284,8 @@ PROPS = {
         explanation=('(S04) Lowest / LowestIndex are the HIR mirror image of Highest / HighestIndex (new, next, peek) under the swap >=/<=, '
                      '>/< on float operands and max/min: the min-side behaviour is the mirrored max-side behaviour, ties included. (S05) every '
                      'to_bits() equality site is enumerated; a function that compares the same pair of floats by bits and by numeric order '
-                     'while steering a search (recursion / fn pointer / loop) is reported: the relations disagree on signed zeros.'),
+                     'while steering a search (recursion / fn pointer / loop) is reported: the relations disagree on signed zeros. (S07s) on every '
+                     'normally returning path of next() the selection methods push the new value into their window exactly once and step each owned sub-method exactly once.'),
         not_decided=['that the max-side algorithms (cached extremum + rescan trigger, age counter, sorted-slice shifting) compute the maximum, '
                      'its age and the median for every order pattern: behaviour over all streams, not decided',
                      'the two halves of HighestLowestDelta::next are not compared'],
